@@ -71,7 +71,7 @@ func (r *Real64) MAX(a, b *Real64) Scalar {
 func (c *Real64) ABS(a *Real64) Scalar {
   switch a.Sign() {
   case -1: c.NEG(a)
-  case 0: c.Reset()
+  case 0: c.Set(ConstFloat64(math.Abs(a.GetFloat64())))
   case 1: c.SET(a)
   }
   return c
